@@ -597,4 +597,54 @@ PLANS["C10"] = dict(
                  "names come from the pool that avoids Rust prelude / generated identifiers; a production kind is used once per grammar"],
     floor=dict(quick=50, thorough=500), wall_cap=dict(quick=1800, thorough=7200),
 )
+import subprocess  # noqa: E402
+import sys  # noqa: E402
+import time  # noqa: E402
+
+RCOMP = "/verif/target/repo/debug/rcomp"
+
+
+def build_rcomp(ctx):
+    """rcomp from /repo's working tree, hook feature OFF, own target dir."""
+    env = dict(ctx["env"], CARGO_TARGET_DIR=os.path.join(ctx["target"], "repo"))
+    t = time.time()
+    r = subprocess.run(["cargo", "build", "--offline", "--quiet", "-p", "rustemo-compiler", "--bin", "rcomp"], cwd="/repo", env=env, stdout=subprocess.PIPE, stderr=subprocess.STDOUT, text=True)
+    ctx["log"]("[build rcomp %.1fs rc=%d]" % (time.time() - t, r.returncode))
+    if r.returncode != 0:
+        ctx["log"](r.stdout[-3000:])
+        ctx["log"]("HARNESS-ERROR: rcomp does not build")
+        sys.exit(2)
+
+
+def with_env(jobs_fn, env):
+    def f(ctx, *a):
+        js = jobs_fn(ctx, *a)
+        for j in js:
+            j.setdefault("env", {}).update(env)
+        return js
+    return f
+
+
+PLANS["C17"] = dict(
+    pre=build_rcomp,
+    jobs=with_env(sharded("c17", "C17", 96, 960, max_s_quick=150, max_s_thorough=1500), {"VH_RCOMP": RCOMP}),
+    replay=with_env(replay_with("c17", "C17"), {"VH_RCOMP": RCOMP}),
+    rule="one evaluation = one (grammar, rcomp option vector): (a) 2-24 fresh rcomp processes (each with its own hash seeds) must write byte-identical parser and actions files, (b) the library API called with the equivalent settings "
+         "(each option mapped to the setter its help text names, applied in rcomp's order) must write the same bytes, (c) every grammar is compiled twice in one process in opposite processing orders. "
+         "Option vectors: every single option of rcomp on repository grammars, random combinations elsewhere. Grammars: repository .rustemo files, `ast` shapes, and rules whose production kinds repeat (K, K, K1, K1: name de-duplication). "
+         "non-trivial = distinct (grammar, option vector) for which a parser was written",
+    assumptions=["rcomp is built from /repo's working tree without the verif feature", "`--lexical-disamb-grammar-order=false` is only combined with GLR (the library refuses it for LR by panicking; that is outside C17)",
+                 "-f is always passed so that actions are regenerated"],
+    floor=dict(quick=100, thorough=800),
+)
+PLANS["C18"] = dict(
+    jobs=sharded("c18", "C18", 480, 6400, max_s_quick=150, max_s_thorough=1500), replay=replay_with("c18", "C18"),
+    rule="one evaluation = one (grammar, edit history) pair: the actions file a forced generation wrote is edited 1-4 times (delete a random subset of items, delete single types while keeping their helpers, rewrite function bodies, "
+         "insert user fn/struct/enum/const/static/use/impl/mod items, reorder everything; optionally regenerating in between and optionally changing the grammar) and then regenerated with force(false); parsed with syn, "
+         "every pre-existing item must survive token for token and in order as a prefix, every appended item must be one a forced generation produces and must not duplicate an existing name, no fn/type is defined twice, "
+         "every missing action function and every missing type of a grammar symbol is present afterwards, and a second regeneration is byte-identical. non-trivial = distinct (grammar, history) with preserved AND appended items",
+    assumptions=["items are compared as token strings with the pretty-printer's trailing commas removed; non-doc comments are documented to be lost and are not compared",
+                 "whether a deleted helper struct of a kept enum must reappear is not specified by the property and is not judged"],
+    floor=dict(quick=100, thorough=1000),
+)
 NOT_CLAIMED = {}
